@@ -115,6 +115,10 @@ def _det_k(d, data):
     return k
 
 
+import functools
+
+
+@functools.lru_cache(maxsize=8192)
 def sign_blob(d, pub, data, ident=M.DEFAULT_ID):
     """DER SM2 signature of data (Z || data hashed with SM3) by key d, deterministic nonce"""
     e = M.b2i(M.digest_for_sign(pub, ident, data))
